@@ -174,6 +174,29 @@ func (c *Ctx) Known(what string) {
 	c.Res.KnownFindings = append(c.Res.KnownFindings, what)
 }
 
+// IsKnown reports whether known_findings.jsonl lists (property c.ID, key) with status "known".
+func (c *Ctx) IsKnown(key string) bool {
+	b, err := os.ReadFile(filepath.Join(c.Verif, "known_findings.jsonl"))
+	if err != nil {
+		return false
+	}
+	for _, line := range strings.Split(string(b), "\n") {
+		line = strings.TrimSpace(line)
+		if line == "" || strings.HasPrefix(line, "#") {
+			continue
+		}
+		var e struct {
+			Status   string `json:"status"`
+			Property string `json:"property"`
+			Key      string `json:"key"`
+		}
+		if json.Unmarshal([]byte(line), &e) == nil && e.Status == "known" && e.Property == c.ID && e.Key == key {
+			return true
+		}
+	}
+	return false
+}
+
 func sanitize(s string) string {
 	var b strings.Builder
 	for _, r := range s {
